@@ -37,11 +37,12 @@ let show_nr (r : float nrres) =
   Printf.sprintf "%d %d %s %s" (int_of_z r.r_flag) (int_of_z r.r_niter) (hx r.r_step)
     (String.concat " " (List.map hx r.r_trace))
 
-(* nr|scan d ns_tol max_steps max_reps (lo hi)*d init*d [np2 p2*np2] table *)
+(* nr|scan d ns_pidx ns_tol max_steps max_reps (lo hi)*d init*d [np2 p2*np2] table *)
 let run_nr kind toks =
   match toks with
-  | d :: tol :: ms :: mr :: rest ->
+  | d :: pidx :: tol :: ms :: mr :: rest ->
       let d = int_of_string d in
+      let pidx = z_of_int (int_of_string pidx) in
       let (b, rest) = take (2 * d) rest in
       let (ini, rest) = take d rest in
       let bounds = pairs b and ini = List.map fl ini in
@@ -52,13 +53,13 @@ let run_nr kind toks =
       let unif _ = [] in
       if kind = "nr" then
         (* the table holds the log-likelihood ratio and its derivatives *)
-        (match maximize_nr numf (lookup tab) (fl tol) (z_of_int (int_of_string ms))
+        (match maximize_nr numf pidx (lookup tab) (fl tol) (z_of_int (int_of_string ms))
                  (z_of_int (int_of_string mr)) bounds unif ini with
          | Ok ((ll, x), st) -> Printf.sprintf "Ok %s %s | %s" (hx ll) (vs x) (show_nr st)
          | Err e -> "Err " ^ errname e)
       else
         (* the table holds the log-likelihood ratio and its derivatives; TCLLHRatio.maximize with NR + scan *)
-        (match maximize_scan numf (lookup tab) (fl tol) (z_of_int (int_of_string ms))
+        (match maximize_scan numf pidx (lookup tab) (fl tol) (z_of_int (int_of_string ms))
                  (z_of_int (int_of_string mr)) bounds p2s unif ini with
          | Ok ((ll, x), st) ->
              Printf.sprintf "Ok %s %s 0 | %s" (hx ll) (vs x) (show_nr st)
@@ -76,7 +77,7 @@ let err_of = function
   | "RuntimeError" -> RuntimeError | "AssertionError" -> AssertionError
   | "AttributeError" -> AttributeError | _ -> RuntimeError
 
-let run_wrap toks =
+let run_wrap gen toks =
   match toks with
   | d :: mr :: rest ->
       let d = int_of_string d in
@@ -117,6 +118,14 @@ let run_wrap toks =
          | [ (None, r) ] -> r
          | [ (Some x', r) ] -> if veq x x' then r else raise (Miss ("reeval:" ^ vs x))
          | _ -> raise (Miss ("reeval:" ^ vs x))) in
+      if gen then
+        (* generic LLHRatio.maximize: the recorded re-evaluation is the minimised function, llh = its negative *)
+        let llh x = (match reeval x with Ok f -> Ok (-. f) | Err e -> Err e) in
+        (match maximize_gen numf impl (fun (c, _) -> c) (fun (_, p) -> p) llh bounds unif
+                 (z_of_int (int_of_string mr)) ini with
+         | Ok ((ll, x), _) -> Printf.sprintf "Ok %s %s 0" (hx ll) (vs x)
+         | Err e -> "Err " ^ errname e)
+      else
       (match minimize numf impl (fun (c, _) -> c) (fun (_, p) -> p) reeval bounds unif
                (z_of_int (int_of_string mr)) ini with
        | Ok (((x, f), _), reps) -> Printf.sprintf "Ok %s %s %d" (hx f) (vs x) (int_of_z reps)
@@ -128,7 +137,8 @@ let () = iter_lines (fun l ->
     try (match words l with
          | "nr" :: r -> run_nr "nr" r
          | "scan" :: r -> run_nr "scan" r
-         | "wrap" :: r -> run_wrap r
+         | "wrap" :: r -> run_wrap false r
+         | "gen" :: r -> run_wrap true r
          | _ -> "ERR")
     with Miss s -> "MISS " ^ s
        | Failure s -> "ERR " ^ s in
